@@ -85,6 +85,18 @@ func (g *gen) expectedNonce(owner uint64) uint64 {
 func (g *gen) committee() []uint64 {
 	r := g.r
 	ids := append([]uint64{}, g.opIDs...)
+	// operators added earlier in this very block are visible to the committee check through the block
+	// transaction, although they are not committed yet
+	if r.Chance(2, 3) {
+		var fresh []uint64
+		for id := range g.added {
+			if !containsU(ids, id) {
+				fresh = append(fresh, id)
+			}
+		}
+		sortU(fresh)
+		ids = append(ids, fresh...)
+	}
 	if len(ids) < 4 {
 		return []uint64{1, 2, 3, 4}
 	}
